@@ -127,6 +127,9 @@ func bo(s string) binary.ByteOrder {
 	return wkb.NDR
 }
 
+const one = "3ff0000000000000 4000000000000000"
+const two = "3ff0000000000000 4000000000000000 c008000000000000 8000000000000000"
+
 func gen(seed uint64, tier string) {
 	out := bufio.NewWriter(os.Stdout)
 	defer out.Flush()
@@ -169,6 +172,25 @@ func gen(seed uint64, tier string) {
 	}
 	for i := 0; i < n; i++ {
 		emit(genGeom(r, 4), i)
+	}
+	// nil slices at every level (Go distinguishes nil from empty; the encoding must not): written with
+	// the token "nil" in place of a count so that the impl stage rebuilds them as nil
+	for _, t := range []string{"LS nil", "MP nil", "PG nil", "PG 1 nil", "PG 3 2 " + two + " nil 1 " + one, "MLS 2 nil 1 " + one,
+		"MPG 2 nil 1 nil", "GC 3 LS nil PG 1 nil MP nil", "GC 1 GC 2 MLS 1 nil P " + one} {
+		for _, o := range []string{"X", "N"} {
+			fmt.Fprintf(out, "enc %s %s\nrt %s %s\nhexrt %s %s\n", o, t, o, t, o, t)
+		}
+	}
+	// batches: all encodings of a batch are produced first and read only afterwards, so a result
+	// that aliases an internal buffer reused by a later call is seen (one line = one replayable history)
+	nb := n / 30
+	for i := 0; i < nb; i++ {
+		k := r.Range(2, 6)
+		fmt.Fprintf(out, "encbatch %d", k)
+		for j := 0; j < k; j++ {
+			fmt.Fprintf(out, " | %s %s", []string{"X", "N"}[r.Intn(2)], vproto.GeomToks(genGeom(r, 2)))
+		}
+		fmt.Fprintln(out)
 	}
 	// unsupported values (at top level and nested)
 	b := &geom.Bounds{Min: geom.Point{X: 0, Y: 0}, Max: geom.Point{X: 1, Y: 1}}
@@ -220,6 +242,31 @@ func impl() {
 					res = "err"
 				} else {
 					res = "ok " + hex.EncodeToString(buf) + "."
+				}
+			case "encbatch":
+				k := p.Int()
+				kept := make([][]byte, 0, k)
+				hexes := make([]string, 0, k)
+				for j := 0; j < k; j++ {
+					if p.Next() != "|" {
+						panic("encbatch: separator expected")
+					}
+					o := bo(p.Next())
+					g := p.Geom()
+					buf, err := wkb.Encode(g, o)
+					if err != nil {
+						buf = nil
+					}
+					kept = append(kept, buf)
+					s, err := ghex.Encode(g, o)
+					if err != nil {
+						s = "!"
+					}
+					hexes = append(hexes, s)
+				}
+				res = "late"
+				for j := range kept { // read only now, after every later call has happened
+					res += " " + "x" + hex.EncodeToString(kept[j]) + " h" + hexes[j]
 				}
 			case "rt":
 				o := bo(p.Next())
